@@ -64,7 +64,13 @@ type Buffer struct {
 type Reader struct {
 	ref []byte
 	buf *bytes.Reader
+	// depth is the current nesting of skipField through struct, list and map fields
+	depth int
 }
+
+// maxSkipDepth bounds the nesting skipField descends into, so that a packet made of nested
+// struct/list/map heads cannot exhaust the goroutine stack.
+const maxSkipDepth = 512
 
 //go:nosplit
 func bWriteU8(w *bytes.Buffer, data uint8) error {
@@ -485,12 +491,12 @@ func (b *Reader) skipField(ty byte) error {
 		}
 		b.Skip(int(l))
 	case MAP:
-		err := b.skipFieldMap()
+		err := b.skipNested(b.skipFieldMap)
 		if err != nil {
 			return err
 		}
 	case LIST:
-		err := b.skipFieldList()
+		err := b.skipNested(b.skipFieldList)
 		if err != nil {
 			return err
 		}
@@ -500,7 +506,7 @@ func (b *Reader) skipField(ty byte) error {
 			return err
 		}
 	case StructBegin:
-		err := b.SkipToStructEnd()
+		err := b.skipNested(b.SkipToStructEnd)
 		if err != nil {
 			return err
 		}
@@ -510,6 +516,17 @@ func (b *Reader) skipField(ty byte) error {
 		return fmt.Errorf("invalid type")
 	}
 	return nil
+}
+
+// skipNested runs skip one nesting level deeper and refuses to go beyond maxSkipDepth.
+func (b *Reader) skipNested(skip func() error) error {
+	if b.depth >= maxSkipDepth {
+		return fmt.Errorf("skip field: nested deeper than %d", maxSkipDepth)
+	}
+	b.depth++
+	err := skip()
+	b.depth--
+	return err
 }
 
 // SkipToStructEnd for skip to the StructEnd tag.
